@@ -320,17 +320,33 @@ def per_program(p):
 
 
 def plan(tier, seed):
-    n = 300 if tier == "quick" else 2500
+    n = 220 if tier == "quick" else 2500
     depth = 4 if tier == "quick" else 6
     shards = [{"seed": seed * 1000 + k, "n": n, "depth": depth, "adversarial": k % 4 == 3} for k in range(16)]
     # one parameterised generic met twice in one annotation (nested first / bare first)
     shards += [{"seed": seed * 1000 + 70 + k, "n": n, "depth": 3, "repeated": True} for k in range(2)]
     # unions of leaf types: values of one class that belong to different members, one after the other on the same routines
     shards += [{"seed": seed * 1000 + 80 + k, "n": n, "depth": 2, "unions": True} for k in range(2)]
+    # recursive classes whose cycle is closed through a named alias / NewType (of a container of the class, or of the class itself)
+    shards += [{"seed": seed * 1000 + 90, "n": 150 if tier == "quick" else 1500, "depth": 2, "alias_cycles": True}]
     return shards
 
 
+def alias_cycle_specs():
+    from harness import topology as tp
+    out = []
+    for t in tp.enumerate_topologies(1, kinds=tp.CYCLE_KINDS + tp.ALIAS_KINDS):
+        if any(k in tp.ALIAS_KINDS for _, k in t[0]):
+            for emb in tp.EMBEDDINGS + ["edgealias"]:
+                for fl in ("dataclass", "plain", "namedtuple"):
+                    out.append(tp.to_spec(t, 0, emb, flavours=[fl], future=(fl == "plain")))
+    return out
+
+
 def run_shard(shard, col):
+    if shard.get("alias_cycles"):
+        progs.drive_programs(col, seed=shard["seed"], n=shard["n"], spec_strategy=core.st.sampled_from(alias_cycle_specs()), per_program=per_program)
+        return
     adv = shard.get("adversarial", False)
     progs.drive_programs(col, seed=shard["seed"], n=shard["n"],
                          spec_strategy=(U.scalar_union_specs() if shard.get("unions") else U.repeated_generic_specs() if shard.get("repeated") else
